@@ -3,7 +3,10 @@
 From ClapModel Require Import Base.Bytes Base.Machine Base.Utf8.
 From ClapModel Require Import Parse.Cmd Parse.Build Parse.Valid Parse.Matcher Parse.Errors Parse.Validator Parse.Parser.
 From ClapModel Require Import ParseProofs.Spelling ParseProofs.Dispatch ParseProofs.SpellingLine.
+From ClapModel Require Import ParseProofs.SpellingStep ParseProofs.SpellingDash.
 From Coq Require Import ZArith List.
+From RecordUpdate Require Import RecordSet.
+Import RecordSetNotations.
 Import ListNotations.
 Open Scope N_scope.
 
@@ -478,3 +481,143 @@ Theorem C08_spelling_needs_success_witness : exists c0 tokA tokB v rest,
   out_kind (parse_top c0 ([112] :: tokB :: v :: rest)) = Some EUnknownArgument.
 Proof. exact spelling_needs_success_witness. Qed.
 Print Assumptions C08_spelling_needs_success_witness.
+
+(** * Round 3 *)
+
+(** ** the generic decomposition of the token loop (ParseProofs/SpellingStep.v)
+    [step c rest tok ls st]: one iteration as a function -- "go on from (ls', st')" or the way the loop is left;
+    [run c pre tail ls st]: [step] iterated over a prefix.  The model's loop body IS [step] followed by the loop on
+    the rest (every recursive call is a tail call), for every command, token and state: *)
+Theorem C08_loop_is_step : forall c tok rest ls st,
+  parse_loop c (tok :: rest) ls st =
+  match step c rest tok ls st with
+  | SGo ls1 st1 => parse_loop c rest ls1 st1
+  | SExit x => exit_res tok rest x
+  end.
+Proof. exact (fun c tok rest ls st => eq_trans (parse_loop_cons c tok rest ls st) (iteration_step c (parse_loop c rest) rest tok ls st)). Qed.
+Print Assumptions C08_loop_is_step.
+
+(** ANY prefix, ANY tail: [parse_loop (pre ++ tail)] = run [pre], then [parse_loop tail] from the state reached
+    (or the exit taken inside [pre], the unread tokens being its payload) *)
+Theorem C08_run_split : forall c pre tail ls st,
+  parse_loop c (pre ++ tail) ls st =
+  match run c pre tail ls st with
+  | inl (ls', st') => parse_loop c tail ls' st'
+  | inr (x, tok, pre') => exit_res tok (pre' ++ tail) x
+  end.
+Proof. exact run_split. Qed.
+Print Assumptions C08_run_split.
+
+(** the run over a prefix reads the tail only through the look-ahead of the positional counter correction *)
+Theorem C08_run_lookahead_only : forall c pre t1 t2 ls st,
+  (forall ls', pos_counter c t1 ls' = pos_counter c t2 ls') -> run c pre t1 ls st = run c pre t2 ls st.
+Proof. exact run_la. Qed.
+Print Assumptions C08_run_lookahead_only.
+
+Theorem C08_lookahead_first_token : forall c n r1 r2 ls, pos_counter c (n :: r1) ls = pos_counter c (n :: r2) ls.
+Proof. exact (fun c n r1 r2 => la_eq_head c n r1 r2). Qed.
+Print Assumptions C08_lookahead_first_token.
+
+Theorem C08_run_app : forall c p q tail ls st,
+  run c (p ++ q) tail ls st =
+  match run c p (q ++ tail) ls st with
+  | inl (ls', st') => run c q tail ls' st'
+  | inr (x, tok, p') => inr (x, tok, p' ++ q)
+  end.
+Proof. exact run_app. Qed.
+Print Assumptions C08_run_app.
+
+(** ** an explicit [--] before positionals that do not look like flags (ParseProofs/SpellingDash.v) *)
+Theorem C08_dash_classes_meaning : forall c,
+  (forall s, er s = s <| mt := (mt s) <| mt_pending :=
+                 opt_map (fun p => p <| p_trailing_idx := None |>) (mt_pending (mt s)) |> |>) /\
+  (dd_class c <-> is_set s_allow_missing_pos c = false /\ is_set s_dont_delimit_trailing c = false /\
+                  forall a, In a (c_args c) -> a_last a = false) /\
+  (forall t, pos_tok c t <->
+     is_escape t = false /\ to_long t = None /\ to_short t = None /\ possible_subcommand c t false = None) /\
+  (forall ls, dd_site c ls <->
+     l_trailing ls = false /\ (forall i, l_pst ls <> PSOpt i) /\
+     match state_arg c (l_pst ls) with ROk (Some b) => a_hyphen b = false | ROk None => True | _ => False end /\
+     possible_subcommand c dd false = None).
+Proof. exact dash_classes_meaning. Qed.
+Print Assumptions C08_dash_classes_meaning.
+
+Theorem C08_dd_rel_meaning : forall r2 r', dd_rel r2 r' ->
+  r2 = r' \/
+  (exists s2 s', r2 = ROk (LDone s2) /\ r' = ROk (LDone s') /\ er s2 = er s') \/
+  (exists n vals s2 s', r2 = ROk (LExternal n vals s2) /\ r' = ROk (LExternal n vals s') /\ er s2 = er s').
+Proof. exact dd_rel_meaning. Qed.
+Print Assumptions C08_dd_rel_meaning.
+
+(** without [dont_delimit_trailing_values] flushing does not read the trailing index *)
+Theorem C08_flush_ignores_trailing_index : forall c s2 s', is_set s_dont_delimit_trailing c = false ->
+  er s2 = er s' -> resolve_pending c s2 = resolve_pending c s'.
+Proof. exact (fun c s2 s' D => resolve_teq c D s2 s'). Qed.
+Print Assumptions C08_flush_ignores_trailing_index.
+
+(** the second bisimulation: loop states equal up to [l_trailing], parser states equal up to [p_trailing_idx];
+    ALL lines of positional-looking tokens *)
+Theorem C08_dashdash_bisim : forall c, dd_class c -> forall tail lB lA sB sA,
+  Forall (pos_tok c) tail ->
+  l_pst lB = l_pst lA -> l_pos lB = l_pos lA -> l_vaf lB = l_vaf lA -> l_trailing lB = true ->
+  (l_trailing lA = true \/ forall i, l_pst lA <> PSOpt i) ->
+  er sB = er sA ->
+  dd_rel (parse_loop c tail lB sB) (parse_loop c tail lA sA).
+Proof.
+  exact (fun c K tail lB lA sB sA F a b c0 d e H =>
+           dash_bisim c (proj1 (proj2 K)) (proj1 K) (proj2 (proj2 K)) tail lB lA sB sA F
+                      (conj a (conj b (conj c0 (conj d e)))) H).
+Qed.
+Print Assumptions C08_dashdash_bisim.
+
+(** the look-ahead of low-index multiples cannot tell the bare [--] from a positional value *)
+Theorem C08_dashdash_lookahead : forall c v t t' ls, pos_tok c v -> possible_subcommand c dd false = None ->
+  pos_counter c (dd :: t') ls = pos_counter c (v :: t) ls.
+Proof. exact (fun c v t t' ls P Q => la_dd c v t t' P Q ls). Qed.
+Print Assumptions C08_dashdash_lookahead.
+
+(** [pre -- tail] vs [pre tail], any prefix, at the loop level *)
+Theorem C08_explicit_dashdash_loop : forall c pre tail ls st ls' st',
+  dd_class c -> Forall (pos_tok c) tail -> tail <> [] ->
+  run c pre tail ls st = inl (ls', st') -> dd_site c ls' ->
+  dd_rel (parse_loop c (pre ++ dd :: tail) ls st) (parse_loop c (pre ++ tail) ls st).
+Proof.
+  exact (fun c pre tail ls st ls' st' K => dash_anywhere c (proj1 (proj2 K)) (proj1 K) (proj2 (proj2 K)) pre tail ls st ls' st').
+Qed.
+Print Assumptions C08_explicit_dashdash_loop.
+
+(** whole line: [p pre -- tail] = [p pre tail] *)
+Theorem C08_explicit_dashdash : forall c0 bin pre tail ls' st',
+  is_set s_no_binary_name c0 = false ->
+  let c := build_self (top_cmd c0 bin) in
+  is_set s_ignore_errors c = false -> dd_class c ->
+  Forall (pos_tok c) tail -> tail <> [] ->
+  run c pre tail ls_top ps_new = inl (ls', st') -> dd_site c ls' ->
+  parse_top c0 (bin :: pre ++ dd :: tail) = parse_top c0 (bin :: pre ++ tail).
+Proof. exact dash_top. Qed.
+Print Assumptions C08_explicit_dashdash.
+
+(** the same at any level of the tree (the level a subcommand name selected starts in [ls_top] from [ps_new]) *)
+Theorem C08_explicit_dashdash_level : forall c f pre tail ls' st',
+  is_set s_ignore_errors c = false -> dd_class c ->
+  Forall (pos_tok c) tail -> tail <> [] ->
+  run c pre tail ls_top ps_new = inl (ls', st') -> dd_site c ls' ->
+  gmw_rel (get_matches_with (S f) c (pre ++ dd :: tail) ps_new) (get_matches_with (S f) c (pre ++ tail) ps_new).
+Proof. exact dash_level. Qed.
+Print Assumptions C08_explicit_dashdash_level.
+
+(** the documented exceptions and the empty-tail observation (replayed on the implementation) *)
+Theorem C08_dashdash_exceptions :
+  valid w_last = true /\ differ (parse_top w_last [w_P; t_a]) (parse_top w_last [w_P; dd; t_a]) /\
+  valid w_miss = true /\ differ (parse_top w_miss [w_P; t_a; t_b]) (parse_top w_miss [w_P; dd; t_a; t_b]) /\
+  valid w_ddt = true /\ differ (parse_top w_ddt [w_P; [97; 44; 98]]) (parse_top w_ddt [w_P; dd; [97; 44; 98]]) /\
+  valid w_opt = true /\ differ (parse_top w_opt [w_P; [45; 45; 111; 112; 116]; t_a]) (parse_top w_opt [w_P; [45; 45; 111; 112; 116]; dd; t_a]) /\
+  valid w_sub = true /\ differ (parse_top w_sub [w_P; [114; 117; 110]]) (parse_top w_sub [w_P; dd; [114; 117; 110]]).
+Proof. exact dashdash_exceptions. Qed.
+Print Assumptions C08_dashdash_exceptions.
+
+Theorem C08_dashdash_empty_tail_witness :
+  out_ok (parse_top exd_cmd [[112]; t_a; t_b; t_c]) = true /\
+  out_kind (parse_top exd_cmd [[112]; t_a; t_b; t_c; dd]) = Some EMissingRequiredArgument.
+Proof. exact dashdash_empty_tail_witness. Qed.
+Print Assumptions C08_dashdash_empty_tail_witness.
